@@ -20,6 +20,15 @@ unsafe impl GlobalAlloc for Counting {
         }
         p
     }
+    unsafe fn alloc_zeroed(&self, l: Layout) -> *mut u8 {
+        // forwarded so that large zeroed windows stay untouched (lazily mapped) pages
+        let p = System.alloc_zeroed(l);
+        if !p.is_null() {
+            let _ = LIVE.try_with(|c| c.set(c.get() + l.size() as isize));
+            let _ = ALLOCS.try_with(|c| c.set(c.get() + 1));
+        }
+        p
+    }
     unsafe fn dealloc(&self, p: *mut u8, l: Layout) {
         System.dealloc(p, l);
         let _ = LIVE.try_with(|c| c.set(c.get() - l.size() as isize));
